@@ -186,6 +186,7 @@ def run(ctx):
                 ctx.sample({"kind": kind, "input": inp, "user_seed": user_seed, "nregen": nregen})
             if res and res != "trivial":
                 ctx.violation("regeneration is not a fixed point / user code not kept", res)
+    crlf_probe(ctx)
     if ctx.wf_false:
         uniq = sorted(set(ctx.wf_false))
         ctx.coverage_extra["wf_fresh_false_files"] = [list(x) for x in uniq[:20]]
@@ -196,6 +197,27 @@ def run(ctx):
                 ctx.violation("", {"finding_key": "wf:%s:%s:%s" % x})
         if unknown:
             ctx.tie_broken("hypothesis wf_fresh_file of C01_fixed_point is false on real generator output", [list(x) for x in unknown[:10]])
+
+
+def crlf_probe(ctx):
+    """Directed probe of the recorded finding K01-crlf: a user line ending in CR LF (not a *bare* carriage return, hence inside the
+    property's quantifier) is rewritten to LF by text-mode I/O on POSIX."""
+    import random
+    t = kj.CDPLAYER
+    with scratch() as d:
+        out = os.path.join(d, "o")
+        iface = kj.events_interface(random.Random(1), t, "py")
+        kj.generate("py", out, table=t, iface=iface, name="CD")
+        t0 = read_tree(out)
+        t1 = splice(t0, {("CDController.py", 0): [b"x = 1\r\n", b"y = 2\r\n"]})
+        write_tree(out, t1)
+        kj.generate("py", out, table=t, iface=iface, name="CD")
+        t2 = read_tree(out)
+    ctx.case(("crlf-probe",))
+    ctx.count("crlf_probe")
+    if t2.get("CDController.py") != tabnorm(t1["CDController.py"]):
+        ctx.violation("user lines ending in CR LF are rewritten (LF only) by a regeneration",
+                      {"kind": "py", "file": "CDController.py", "finding_key": "crlf-user-line"})
 
 
 def replay(ctx, data):
